@@ -23,6 +23,26 @@ def calls_named(P, f, name):
     return [(b, P.val_call(f, f.body, b)) for b, p, fr, t in P.calls(f) if p and common.last_seg(p) == name]
 
 
+def calls_named_inl(P, f, name):
+    """calls_named, plus the calls of that name inside private helpers f calls, seen with the helpers' parameters replaced
+    by the arguments (a renderer split into `split_whole_fractional()` / `pad_fractional(x)` is one renderer)."""
+    out = list(calls_named(P, f, name))
+    have = [v for _, v in out]
+    for b, p, fr, t in P.calls(f):
+        h = (P.fn(p) or P.fn(generic_path(p))) if p else None
+        if h is None or h.crate != "bignumber" or h.body is None or h.derived or h.impl_trait is not None or "::tests::" in h.path:
+            continue
+        cv = P.val_call(f, f.body, b)
+        iv = common.inline_helpers(P, cv)
+        if iv == cv:
+            continue
+        for x in common.walk(iv):
+            if x[0] == "call" and isinstance(x[3], str) and common.last_seg(x[3]) == name and x not in have:
+                have.append(x)
+                out.append((b, x))
+    return out
+
+
 def helper_closure(P, f):
     """f and the private free functions of bignumber it (transitively) calls: a parser split into helpers is one parser."""
     out, todo = [f], [f]
@@ -68,15 +88,15 @@ def run(ctx):
         t1.fail("C18.T1:anchor", "-", "-", "anchor-missing: Display / FromStr for Decimal256")
         return
     # ---- renderer -------------------------------------------------------------------------------------
-    divs = [v for b, v in calls_named(P, disp, "div") if "U256" in v[3]]
-    rems = [v for b, v in calls_named(P, disp, "rem") if "U256" in v[3]]
+    divs = [v for b, v in calls_named_inl(P, disp, "div") if "U256" in v[3]]
+    rems = [v for b, v in calls_named_inl(P, disp, "rem") if "U256" in v[3]]
     SELF0 = P_(disp, 0, ".0")
     if len(divs) != 1 or len(rems) != 1 or divs[0][4][1] != SCALE_ITEM or rems[0][4][1] != SCALE_ITEM or \
             set(ctx.roots(divs[0][4][0])) != {SELF0} or set(ctx.roots(rems[0][4][0])) != {SELF0}:
         t1.fail("C18.T1:display-split", disp.path, disp.span, "renderer does not split the raw value by / and % of DECIMAL_FRACTIONAL")
     else:
         t1.site("Display: whole = raw / SCALE, fractional = raw % SCALE")
-    reps = calls_named(P, disp, "repeat")
+    reps = calls_named_inl(P, disp, "repeat")
     pad = None
     pad_char = None
     if len(reps) == 1:
@@ -98,9 +118,9 @@ def run(ctx):
         t1.fail("C18.T1:display-width", disp.path, common.span_of_block_term(disp, reps[0][0]), "renderer pads the fraction to %d digits but the scale is 10^%d" % (pad, lg))
     else:
         t1.site("Display: fraction padded to %d digits with '%s'" % (pad, pad_char))
-    seps = [v for b, v in calls_named(P, disp, "write_char")]
+    seps = [v for b, v in calls_named_inl(P, disp, "write_char")]
     dsep = seps[0][4][1][2] if len(seps) == 1 and seps[0][4][1][0] == "const" else None
-    trims = [v for b, v in calls_named(P, disp, "trim_end_matches")]
+    trims = [v for b, v in calls_named_inl(P, disp, "trim_end_matches")]
     tchar = trims[0][4][1][2] if len(trims) == 1 and trims[0][4][1][0] == "const" else None
     if tchar is None or pad_char is None or tchar != ord(pad_char):
         t1.fail("C18.T1:display-trim", disp.path, disp.span, "renderer trims %r but pads with %r" % (chr(tchar) if isinstance(tchar, int) else tchar, pad_char))
